@@ -56,6 +56,10 @@ def enum_operator_table():
         out.append((("binding_block", [("expr", ("call", ("member", ("ident", "a"), "act"), [a]))]), "arg:act:%s" % n))
         out.append((("binding_block", [("expr", ("call", ("member", ("ident", "a"), "put"), [a]))]), "arg:put:%s" % n))
         out.append((("binding_block", [("expr", ("call", ("member", ("ident", "a"), "setNext"), [a]))]), "arg:setNext:%s" % n))
+        out.append((("binding_block", [("expr", ("call", ("member", ("ident", "a"), "over"), [a]))]), "arg:over:%s" % n))
+        out.append((("binding_block", [("expr", ("call", ("member", ("ident", "a"), "over"), [("int", 1), a]))]), "arg:over2:%s" % n))
+        out.append((("binding_block", [("expr", ("call", ("member", ("ident", "a"), "over"), [a, ("str", "s")]))]), "arg:over2b:%s" % n))
+        out.append((("binding_block", [("expr", ("call", ("member", ("ident", "a"), "over"), [("int", 1), ("str", "s"), a]))]), "arg:over3:%s" % n))
         out.append((("binding_block", [("expr", ("call", ("member", ("ident", "console"), "log"), [a]))]), "arg:console:%s" % n))
         out.append((("binding_block", [("expr", ("call", ("member", ("ident", "console"), "warn"), [("int", 1), a, a]))]), "arg:console3:%s" % n))
         out.append((("binding_expr", ("sub", a, ("int", 0))), "subscript-obj:%s" % n))
